@@ -179,9 +179,10 @@ func c09Roundtrip(a []string) string {
 	}
 	d, err := llmnr.DecodeMessage(w)
 	if err != nil {
-		return "ok " + hx(w) + " decode-err"
+		return "ok " + hxOwn(w) + " decode-err"
 	}
-	return "ok " + hx(w) + " " + strings.Join(c09FromLib(d).tokens(), " ")
+	toks := strings.Join(c09FromLib(d).tokens(), " ")
+	return "ok " + hxOwn(w) + " " + toks
 }
 
 func c09DecMsg(a []string) string {
